@@ -10,7 +10,7 @@ package dtlshandshake
 //symgo:replace github.com/pion/dtls/v3/pkg/crypto/prf.PreMasterSecret zz13PreMasterSecret
 //symgo:stub time.NewTimer / Timer.Stop: harness timer whose channel holds one tick iff the schedule says the retransmission timer expires in this wait; SHA-256 (transcript fingerprint and transcript hash) is an uninterpreted function of the hashed bytes; ECDH key generation and shared-secret computation return dummies and are counted; Conn is the recording fake of fsm12.go
 //symgo:assume as in fsm12.go: a ClientHello reaches the FSM as a complete cache entry followed by a RecvHandshake signal; a retransmitted first ClientHello is signalled without a new cache entry
-//symgo:outside schedules longer than NEVENTS events; ACK-only receive events (no ACK can exist before epoch 2); ClientHello shapes other than the one of flight13.go without an extra extension
+//symgo:outside schedules longer than NEVENTS events; ClientHello shapes other than the one of flight13.go without an extra extension
 
 import (
 	"context"
@@ -24,6 +24,7 @@ import (
 	dtlsflight13 "github.com/pion/dtls/v3/internal/flight/flight13"
 	dtlsstate "github.com/pion/dtls/v3/internal/state"
 	"github.com/pion/dtls/v3/pkg/crypto/elliptic"
+	"github.com/pion/dtls/v3/pkg/protocol"
 	"github.com/pion/dtls/v3/pkg/protocol/handshake"
 )
 
@@ -112,7 +113,8 @@ func zzIsRetryRequest(p *dtlsflight.Packet, issued []byte) bool {
 
 // The real DTLS 1.3 server FSM (prepare / send / wait of fsm13 with the real flight13 parsers, generators
 // and transcript code) driven through every schedule of up to NEVENTS events: retransmission timer expires;
-// first ClientHello arrives (or is signalled again); second ClientHello (message_seq 1) arrives with
+// first ClientHello arrives (or is signalled again); an ACK-only record arrives (empty or naming an unknown
+// record); second ClientHello (message_seq 1) arrives with
 // arbitrary legacy version, random, session id, cipher suite, compression byte, key share byte and a cookie
 // extension that is absent or holds 20 arbitrary bytes. Proved for every schedule and all values: (1) until
 // a second ClientHello has arrived that echoes the issued cookie exactly and repeats all other fields of the
@@ -121,7 +123,7 @@ func zzIsRetryRequest(p *dtlsflight.Packet, issued []byte) bool {
 // expiry writes nothing; (3) a HelloRetryRequest is written only in the step that handled the first
 // ClientHello; (4) a wrong second ClientHello ends the handshake with an alert and nothing more written.
 //
-//symgo:entry covers=hrr_sent,timer_in_flight0,timer_in_flight2,hello_again_in_flight2,accepted,rejected
+//symgo:entry covers=ack_in_flight2,hrr_sent,timer_in_flight0,timer_in_flight2,hello_again_in_flight2,accepted,rejected
 func zzFsm13OnlyCookieRequest() {
 	rand.Reader = zzRand{}
 	cfg := &dtlsconfig.HandshakeConfig{
@@ -171,7 +173,7 @@ func zzFsm13OnlyCookieRequest() {
 
 	n := zzsymParam("NEVENTS")
 	for i := 0; i < n; i++ {
-		ev := zzsymChoice("event", 3) // 0 timer, 1 first ClientHello (again), 2 second ClientHello
+		ev := zzsymChoice("event", 4) // 0 timer, 1 first ClientHello (again), 2 second ClientHello, 3 ACK-only record
 		if ev == 2 && !haveCH1 {
 			return
 		}
@@ -194,7 +196,17 @@ func zzFsm13OnlyCookieRequest() {
 			cache.Push(zzHello13(1, v2, r2, s2, su2, c2, sh2, ck2), 0, 1, handshake.TypeClientHello, true)
 		}
 		conn.lateTimer = ev == 1 && haveCH1
-		if ev != 0 {
+		if ev == 3 {
+			// an ACK record (cleartext ACK records are not refused by the record layer): empty, or naming a
+			// record the server never sent
+			acks := []protocol.ACK{{}}
+			if zzsymChoice("ack_names_record", 2) == 1 {
+				acks = []protocol.ACK{{Records: []protocol.RecordNumber{{Epoch: 0, SequenceNumber: 0}}}}
+			}
+			conn.queued = 1
+			conn.lateTimer = true // the FSM keeps waiting after an ACK: let the timer end this wait call
+			conn.recv <- RecvHandshakeState{Done: make(chan struct{}), ACKs: acks, IsRetransmit: zzsymBool("isretransmit")}
+		} else if ev != 0 {
 			conn.queued = 1
 			conn.recv <- RecvHandshakeState{Done: make(chan struct{}), HasHandshake: true, IsRetransmit: zzsymBool("isretransmit")}
 		}
@@ -216,6 +228,13 @@ func zzFsm13OnlyCookieRequest() {
 				zzsymCover("timer_in_flight2")
 			} else {
 				zzsymCover("timer_in_flight0")
+			}
+		}
+		if ev == 3 {
+			zzsymAssert(len(wrote) == 0, "ack_record_never_elicits_a_cookie_request")
+			zzsymAssert(alive, "ack_record_keeps_handshake")
+			if inFlight2 {
+				zzsymCover("ack_in_flight2")
 			}
 		}
 		if ev == 1 {
